@@ -1,3 +1,13 @@
 -- GENERATED: axiom audit for Props/C08.lean
 import Props.C08
+#print axioms SpyneModel.Props.C08.int_roundtrip_unbounded
+#print axioms SpyneModel.Props.C08.int_roundtrip_bounded
 #print axioms SpyneModel.Props.C08.bool_roundtrip
+#print axioms SpyneModel.Props.C08.bool_literals
+#print axioms SpyneModel.Props.C08.bool_nonliteral_rejected
+#print axioms SpyneModel.Props.C08.offset_roundtrip
+#print axioms SpyneModel.Props.C08.offset_literal
+#print axioms SpyneModel.Props.C08.date_roundtrip
+#print axioms SpyneModel.Props.C08.time_roundtrip
+#print axioms SpyneModel.Props.C08.datetime_roundtrip
+#print axioms SpyneModel.Props.C08.duration_roundtrip
